@@ -618,10 +618,19 @@ def r75_edge(e: Engine, rep: Report):
                             isinstance(n.ast.value, ast.Constant) and
                             not n.ast.value.value):
                         hit = True
-                        fresh = isinstance(n.ast.value, ast.Call) and any(
+                        v = n.ast.value
+                        if isinstance(v, ast.Name):
+                            ds = [s2.ast.value for s2 in g.of_kind('stmt')
+                                  if s2.frame is n.frame and
+                                  isinstance(s2.ast, ast.Assign) and any(
+                                      isinstance(t2, ast.Name) and
+                                      t2.id == v.id
+                                      for t2 in s2.ast.targets)]
+                            v = ds[0] if len(ds) == 1 else v
+                        fresh = isinstance(v, ast.Call) and any(
                             c.endswith('envelope.Envelope')
                             for c in e.r.resolve_call(
-                                n.ast.value, n.ctx).ctor_of)
+                                v, n.frame.ctx).ctor_of)
                         rep.check(fresh, 'R7.5', SESSION + '.MAIL',
                                   'MAIL installs a fresh Envelope',
                                   'MAIL does not start from a new Envelope: '
@@ -669,14 +678,26 @@ def r75_edge(e: Engine, rep: Report):
     g = e.build(ctx)
     rp = '%s#%d' % (ctx.func.params[1], g.entry.frame.id)
 
+    def is_fresh(v, frame, gg):
+        """v is a newly constructed Envelope, directly or through a local
+        that is bound to one and nothing else"""
+        if isinstance(v, ast.Call):
+            return any(c.endswith('envelope.Envelope')
+                       for c in e.r.resolve_call(v, frame.ctx).ctor_of)
+        if isinstance(v, ast.Name):
+            defs = [s2.ast.value for s2 in gg.of_kind('stmt')
+                    if s2.frame is frame and isinstance(s2.ast, ast.Assign)
+                    and any(isinstance(t, ast.Name) and t.id == v.id
+                            for t in s2.ast.targets)]
+            return bool(defs) and all(isinstance(d, ast.Call) and
+                                      is_fresh(d, frame, gg) for d in defs)
+        return False
+
     def fresh_assign(n):
         if n.kind == 'stmt' and isinstance(n.ast, ast.Assign) and any(
                 path_of(t, n.frame) == 'self.envelope'
-                for t in n.ast.targets) and \
-                isinstance(n.ast.value, ast.Call):
-            return any(c.endswith('envelope.Envelope')
-                       for c in e.r.resolve_call(n.ast.value,
-                                                 n.frame.ctx).ctor_of)
+                for t in n.ast.targets):
+            return is_fresh(n.ast.value, n.frame, g)
         return False
 
     def step(n, label, st):
